@@ -15,6 +15,7 @@ import os
 from . import core
 
 INF = 1 << 62
+GUARDED = 1 << 40        # size of the PROT_NONE region behind the buffer (harness/c10_driver.hpp)
 CONTAINER_OPS = ('fr', 'bk', 'pb', 'pop', 'cl', 'er', 'er1', 'ins', 'ins1', 'rs')
 
 
@@ -232,18 +233,21 @@ class Chain:
         self.kind = ''
         self.view_begin = 0      # begin of the view the LAST accessor is called on
         self.steps = []          # (kind, needs_end_of_step, view_begin)
-        self.views = []          # begin of every view the chain derives (also inside size computations)
+        self.max_view = 0        # largest begin of any view the chain derives (also inside size computations)
         self.huge = False        # some computed position does not fit a pointer (64-bit header values)
         self.modelled = True     # False: judged against the specification only (container operations)
 
     def view(self, p):
-        self.views.append(p)
-        if p >= 1 << 63:
+        if p > self.max_view:
+            self.max_view = p
+        if p >= GUARDED - (1 << 20):
+            # outside the guarded address range (or not a pointer at all): what the hardware does there is not
+            # observable reliably
             self.huge = True
         return p
 
     def past_end(self, n):
-        return any(p > n for p in self.views)
+        return self.max_view > n
 
     def need(self, end):
         self.needs_end = max(self.needs_end, min(end, INF))
@@ -274,7 +278,7 @@ class Spec:
     def size_data(self, d, p):
         self.cur.view(p)
         n = self.rd(p, d['lenSize'])
-        if p + d['lenSize'] + n >= 1 << 63:
+        if p + d['lenSize'] + n >= GUARDED - (1 << 20):
             self.cur.huge = True
         return p + d['lenSize'] + n, p + d['lenSize']
 
@@ -298,10 +302,15 @@ class Spec:
         num = self.rd(p + dim['numOff'], dim['numSize'])
         bl = self.rd(p + dim['blOff'], dim['blSize'])
         if is_flat(g['level']):
-            if p + dim['size'] + num * bl >= 1 << 63:
+            if p + dim['size'] + num * bl >= GUARDED - (1 << 20):
                 self.cur.huge = True
             return p + dim['size'] + num * bl, need
         q = p + dim['size']
+        if num > self.L:
+            # every entry of a nested group has at least one byte of dynamic-member header: the walk leaves the
+            # image, i.e. some entry begins behind it
+            self.cur.view(self.L + 1)
+            raise Beyond()
         for _ in range(num):
             self.cur.view(q)
             end, nd = self.size_level(g['level'], q, bl)
@@ -503,7 +512,7 @@ class Spec:
             if k in CONTAINER_OPS:
                 ch.modelled = False
                 n = self.rd(p, ls)
-                if p + ls + n >= 1 << 63:
+                if p + ls + n >= GUARDED - (1 << 20):
                     ch.huge = True
                 mx = 256 ** ls - 1
                 # documented: the buffer holds size() elements (and the elements added)
@@ -530,7 +539,7 @@ class Spec:
                     ch.need(p + ls + max(n, st[1]))
                 return None
             n = self.rd(p, ls)
-            if p + ls + n >= 1 << 63:
+            if p + ls + n >= GUARDED - (1 << 20):
                 ch.huge = True
             ch.need(p + ls + n)
             if k in ('e', 'w') and st[1] >= n:
@@ -604,7 +613,7 @@ class CursorSpec:
         self.s = spec
         self.members = []      # dict(kind, pre, needs{var}, view)
         self.pending = 0
-        self.views = []
+        self.max_view = 0
         spec.cur = Chain()
         try:
             self._level(spec.m['level'], {'vb': 0, 'msg': True, 'bl': 0})
@@ -612,11 +621,10 @@ class CursorSpec:
             # the traversal runs off the image behind the last recorded member: later members are not enumerated
             pass
         self.huge = spec.cur.huge
-        self.cviews = spec.cur.views
 
     def _add(self, kind, needs, view):
         self.members.append({'kind': kind, 'pre': self.pending, 'needs': needs, 'view': view,
-                             'nviews': len(self.views), 'ncviews': len(self.s.cur.views)})
+                             'max_view': max(self.max_view, self.s.cur.max_view)})
         self.pending = 0
 
     def _lv_end(self, view):
@@ -635,7 +643,7 @@ class CursorSpec:
             kind = 'cursor.field.' + ('view' if f['is_view'] else 'scalar') + ('.last' if f['last'] else '')
             self._add(kind, {v: nd for v in CVARS}, view['vb'])
             # the cursor behind the field is the base pointer of the next accessor's check
-            self.views.append(view['vb'] + f['abs'] + f['size'])
+            self.max_view = max(self.max_view, view['vb'] + f['abs'] + f['size'])
         if not level['groups'] and not level['datas']:
             return
         p, lvneed = self._lv_end(view)
@@ -643,7 +651,7 @@ class CursorSpec:
         first = True
         for g in level['groups']:
             dim = g['dim']
-            self.views.append(p)
+            self.max_view = max(self.max_view, p)
             hdr = p + dim['size']
             _, sz_need = (None, INF)
             try:
@@ -660,8 +668,12 @@ class CursorSpec:
             bl = s.rd(p + dim['blOff'], dim['blSize'])
             q = hdr
             empty = not level_fields(g['level']) and not g['level']['groups'] and not g['level']['datas']
+            if num > max(s.L, 4096):
+                if bl > 0 or not is_flat(g['level']):
+                    self.max_view = max(self.max_view, s.L + 1)
+                raise Beyond()
             for _ in range(num):
-                self.views.append(q)
+                self.max_view = max(self.max_view, q)
                 if empty:
                     self.pending = max(self.pending, q + bl)
                     q = q + bl
@@ -677,7 +689,7 @@ class CursorSpec:
             p = endg
             first = False
         for d in level['datas']:
-            self.views.append(p)
+            self.max_view = max(self.max_view, p)
             base = lvneed if first else getter_need
             nd = p + d['lenSize']
             needs = {'plain': max(base, nd), 'init': max(base, nd), 'dont_move': base, 'init_dont_move': base,
@@ -689,8 +701,7 @@ class CursorSpec:
             first = False
 
     def past_end(self, k, n):
-        return any(p > n for p in self.views[:self.members[k]['nviews']]) or \
-            any(p > n for p in self.cviews[:self.members[k]['ncviews']])
+        return self.members[k]['max_view'] > n
 
     def runs(self):
         """[(k, var, needs_end, kind)] in the driver's order"""
